@@ -65,7 +65,7 @@ def generate(rng, n, tier, stats):
         else:
             form = {'dict': [[a['dims'][i] if rng.random() < 0.6 else i, idxs[i]] for i in which]}
         # shape of the selection (None when the index is erroneous)
-        exp = c01.expected(a, ['get', {'setitem': 'getitem', 'put': 'take', 'put_pos': 'take_pos'}.get(spelling, spelling), form, None, False, by])
+        exp = c01.expected(a, ['get', {'setitem': 'getitem', 'put': 'take', 'put_bc': 'take', 'put_pos': 'take_pos'}.get(spelling, spelling), form, None, False, by])
         vk = rng.choice(['i', 'f', 'b', 'U']) if cast else (dtype if dtype in 'ifb' else rng.choice(['i', 'f', 'U']))
         if not cast and dtype == 'f' and rng.random() < 0.3: vk = 'i'
         stats['kind_pair'][dtype + '<-' + vk + ('/cast' if cast else '')] += 1
@@ -85,6 +85,10 @@ def generate(rng, n, tier, stats):
             rhs = {'scalar': rng.choice(VALS[vk])}
             stats['rhs']['scalar'] += 1
         inplace = rng.random() < 0.5
+        if spelling == 'put' and len(which) <= 1 and rng.random() < 0.3:
+            # put(..., broadcast=True) (NumPy-like pointwise indexing): with at most one indexed dimension it addresses the same
+            # cells as the orthogonal form, through the other setter (_setvalues_broadcast) - cast / inplace must act the same
+            spelling = 'put_bc'; stats['spelling']['put broadcast=True, <= 1 indexed dim' + ('/cast' if cast else '')] += 1
         cases.append({'ins': [a], 'ops': [['put', spelling, form, None, rhs, cast, inplace, by]]})
     return cases
 
@@ -120,7 +124,7 @@ def oracle(case, res):
         if vals is not None and len(vals) not in (1, k): return None
     else:
         _, spelling, form, tol, rhs, cast, inplace, by = op
-        exp = c01.expected(a, ['get', {'setitem': 'getitem', 'put': 'take', 'put_pos': 'take_pos'}.get(spelling, spelling), form, None, False, by])
+        exp = c01.expected(a, ['get', {'setitem': 'getitem', 'put': 'take', 'put_bc': 'take', 'put_pos': 'take_pos'}.get(spelling, spelling), form, None, False, by])
         if exp is None: return None
         if exp == 'IndexError':
             return None if res == ('err', 'IndexError') else 'absent label did not raise IndexError: %r' % (res[:2],)
